@@ -18,10 +18,23 @@ def rewrite(c):
     return {os.path.join(vlib.REPO, QDIR, f): os.path.join(outdir, f) for f in ("timewheel.go", "queue.go")}
 
 
+def variant():
+    """'f' if the tree has the repaired shutdown handshake (Add selects on tw.done), 'u' for the pinned one."""
+    try:
+        src = open(os.path.join(vlib.LEAN, "MaddyVerif", "Generated", "TimeWheelSync.lean")).read()
+    except OSError:
+        return "f"
+    for line in src.split("\n"):
+        if '("TimeWheel.Add"' in line:
+            return "f" if "recv:tw.done" in line else "u"
+    return "f"
+
+
 def harness(c, ov, n_sched, n_free, replay_ops=None, race=False):
     if ov is None:
         return
-    rc, out, outdir = c.go_harness(PKGS, "^TestVerifC12Sched$", n=n_sched, replay_ops=replay_ops, extra_overlay=ov, name="sched")
+    rc, out, outdir = c.go_harness(PKGS, "^TestVerifC12Sched$", n=n_sched, replay_ops=replay_ops, extra_overlay=ov, name="sched",
+                                   env={"VERIF_C12_VARIANT": variant()})
     corr, _ = c.collect(outdir, names=["c12sched"])
     c.correspond(corr)
     if n_free:
@@ -36,7 +49,7 @@ def run(c):
     if c.replay:
         harness(c, ov, 1, 1, replay_ops=c.replay.get("replay_ops") or [])
     elif c.thorough:
-        harness(c, ov, 60000, 20000, race=True)
+        harness(c, ov, 150000, 40000, race=True)
     else:
         harness(c, ov, 3000, 1200)
 
